@@ -125,14 +125,23 @@ class Report:
             self.ok('floor', f'floor:{name}', where, f'{found} >= {floor}')
 
 
+_INCLUDING = []
+
+
 def include(rep, module_name, prefixes, label):
     """evaluate another property's rules in this run and adopt the obligations whose rule id starts with one of `prefixes`
     (a property whose statement contains a clause that is decided by a sibling's rules)"""
     import importlib
+    if _INCLUDING:
+        return      # rules adopted by an adopted module are not adopted again (and mutual adoption - C03 <-> C13 - terminates)
+    _INCLUDING.append(module_name)
     try:
         mod = importlib.import_module('rules.' + module_name)
         sub = Report(rep.pid, rep.tier)
-        mod.run(sub)
+        try:
+            mod.run(sub)
+        finally:
+            _INCLUDING.pop()
         n = 0
         for o in sub.obs:
             if o.rule.startswith(tuple(prefixes)):
